@@ -147,7 +147,7 @@ compress_st = st.fixed_dictionaries({
 
 
 # ------------------------------------------------------------------ prepare under a fixed mask
-FORMS = ["shaped", "flat", "time", "list", "quant", "quantflat", "masked", "flat-time"]
+FORMS = ["shaped", "flat", "time", "list", "quant", "quantflat", "masked", "flat-time", "quantint"]
 
 
 def check_prepare(case, ctx):
@@ -178,6 +178,10 @@ def check_prepare(case, ctx):
         payload = tools.UNITS.Quantity(x.copy(), "m")
     elif form == "quantflat":
         payload = tools.UNITS.Quantity(x.ravel(order=order).copy(), "km")
+    elif form == "quantint":
+        # integer-typed payload in foreign units (class codes, counts): converted, and masked like any other
+        xi = np.round(x).astype(np.int32)
+        payload = tools.UNITS.Quantity(xi.copy(), "km")
     else:
         payload = np.ma.array(x.copy(), mask=M)
     try:
@@ -198,6 +202,8 @@ def check_prepare(case, ctx):
     exp = x * (1e-3 if False else 1.0)
     if form == "quantflat":
         exp = x * 1000.0
+    if form == "quantint":
+        exp = np.round(x) * 1000.0
     if not hs.unmasked_equal(m[0], exp, M, rtol=1e-12):
         ctx.violation(f"prepare-values-{form}", f"values misplaced for form {form} on {cfg}")
         return
